@@ -185,7 +185,7 @@ func runC07(line string) string {
 			}
 			cl.mu.Unlock()
 		case "w":
-			time.Sleep(40 * time.Millisecond)
+			settle(60 * time.Millisecond)
 		}
 	}
 	res := "ok"
